@@ -189,6 +189,10 @@ func (g *gen) define(b *bind) {
 }
 
 func (g *gen) defun(b *bind) {
+	if b.presig {
+		g.defunWithSig(b, b.sig)
+		return
+	}
 	if old := g.cur.own[b.name]; old != nil && old.kind == "defun" && old.id == b.id && old.sig != nil {
 		// a redefinition keeps the signature and result type, so the callers
 		// generated against the first definition stay well typed
@@ -525,6 +529,17 @@ func (g *gen) section(p *pkg, first bool, earlier []*pkg, consumer bool) {
 			if !b.ready || q.own[b.name] != b || p.own[b.name] != nil {
 				okAll = false
 			}
+			// Re-importing a name from ANOTHER package rebinds it for code
+			// that is already written: a function of p that called the first
+			// package's f would call the second's from now on (globals are
+			// looked up when the call runs).  Such a name means two things
+			// over time, so the conflict (the recorded finding
+			// misbound-ref/imported-conflict) is only produced while p has not
+			// referenced the name yet.
+			if old := p.imports[b.name]; old != nil && old.pkg != b.pkg && p.refd[b.name] {
+				okAll = false
+				g.feat("skip/import-conflict-after-reference")
+			}
 		}
 		if !okAll {
 			continue
@@ -605,6 +620,17 @@ func (g *gen) section(p *pkg, first bool, earlier []*pkg, consumer bool) {
 			export = false
 		}
 		plan = append(plan, planned{b, export})
+	}
+	// half of the planned functions get their signature now, so that functions
+	// written before them can call them (forward references)
+	for i, pl := range plan {
+		if b := pl.b; i > 0 && b.kind == "defun" && p.own[b.name] == nil && g.chance(50) {
+			b.presig = true
+			b.sig = &sig{ret: tNum}
+			for j, m := 0, g.intn(3); j < m; j++ {
+				b.sig.req = append(b.sig.req, tNum)
+			}
+		}
 	}
 	exportAt := g.intn(len(plan) + 1)
 	if twin != nil && exportAt == 0 {
@@ -700,7 +726,14 @@ func (g *gen) section(p *pkg, first bool, earlier []*pkg, consumer bool) {
 		}
 		switch b.kind {
 		case "defun":
+			g.curDef, g.fwd = b, nil
+			for _, later := range plan[i+1:] {
+				if later.b.presig {
+					g.fwd = append(g.fwd, later.b)
+				}
+			}
 			g.defun(b)
+			g.curDef, g.fwd = nil, nil
 		case "gset":
 			g.gset(b)
 		case "deftype":
@@ -715,6 +748,11 @@ func (g *gen) section(p *pkg, first bool, earlier []*pkg, consumer bool) {
 			g.e.nl()
 		}
 		g.define(b)
+		if b.fwdUsed {
+			// not callable (and not driven) before everything it calls exists
+			b.ready = false
+			continue
+		}
 		if b.kind == "gset" && b.ty.K == 'n' && g.chance(25) {
 			// a second top-level set of the same name
 			g.feat("top-level-reset")
@@ -735,6 +773,11 @@ func (g *gen) section(p *pkg, first bool, earlier []*pkg, consumer bool) {
 	}
 	if exportAt == len(plan) {
 		writeExport()
+	}
+	for _, pl := range plan {
+		if pl.b.fwdUsed {
+			pl.b.ready = true
+		}
 	}
 	for _, pl := range plan {
 		if pl.export || pl.b.defconst {
@@ -859,13 +902,13 @@ func genCase() *rapid.Generator[Case] {
 			if g.pkgs[name] != nil {
 				continue
 			}
-			p := &pkg{name: name, own: map[string]*bind{}, imports: map[string]*bind{}, impFile: map[string]int{}, impConflict: map[string]bool{}, uses: map[string]bool{}}
+			p := &pkg{name: name, own: map[string]*bind{}, imports: map[string]*bind{}, impFile: map[string]int{}, impConflict: map[string]bool{}, uses: map[string]bool{}, refd: map[string]bool{}}
 			g.pkgs[name] = p
 			pks = append(pks, p)
 			g.pkgList = append(g.pkgList, p)
 		}
 		// the consumer package: sections of it are appended to some files
-		mainPkg := &pkg{name: "main", own: map[string]*bind{}, imports: map[string]*bind{}, impFile: map[string]int{}, impConflict: map[string]bool{}, uses: map[string]bool{}}
+		mainPkg := &pkg{name: "main", own: map[string]*bind{}, imports: map[string]*bind{}, impFile: map[string]int{}, impConflict: map[string]bool{}, uses: map[string]bool{}, refd: map[string]bool{}}
 		g.pkgs["main"] = mainPkg
 		g.pkgList = append(g.pkgList, mainPkg)
 		nfiles := 1 + g.intn(3)
